@@ -133,9 +133,179 @@ class Identities(Contract):
         return obs
 
 
-CONTRACTS = [RegionRotate90(), MeshRotate90(), Lemmas(), Identities()]
+class FieldRotate90(Contract):
+    """f.rotate90(a, b, k, reference_point, inplace): mesh rotated as Mesh.rotate90 says; the cell that np.rot90 moves to
+    index idx' (the Lemma above: its centre is R + Q(centre - R)) carries Q applied to the two components mapped to a, b;
+    other components / scalars unchanged; validity moved by the same index map; refusal leaves the object unmodified"""
+    name = 'Field.rotate90'
+    qual = ('Field', 'rotate90')
+    func = 'Field.rotate90'
+
+    MAPPINGS = ('default', 'permuted', 'shuffled_dict', 'extra_component', 'missing')
+
+    def configs(s, tier):
+        out = []
+        for d in [x for x in NDIMS[tier] if x >= 2]:
+            pairs = [(0, 1), (1, 0)] if d == 2 else ([(0, 1), (2, 0), (1, 2)] if tier == 'quick' else [(a, b) for a in range(d) for b in range(d) if a != b])
+            for a, b in pairs:
+                for ip in (False, True):
+                    out.append({'ndim': d, 'nvdim': 1, 'ax1': a, 'ax2': b, 'inplace': ip, 'mapping': 'none'})
+                    for mp in s.MAPPINGS:
+                        if tier == 'quick' and d == 3 and mp in ('extra_component',) and (a, b) != (0, 1):
+                            continue
+                        out.append({'ndim': d, 'nvdim': d if mp != 'extra_component' else d + 1, 'ax1': a, 'ax2': b, 'inplace': ip, 'mapping': mp})
+        return out
+
+    def make_field(s, E, cfg):
+        d, nv, mp = cfg['ndim'], cfg['nvdim'], cfg['mapping']
+        m, assume = sym_mesh(E, d, prefix='fm', tf=1e-12)
+        dims = m.attrs['_region'].attrs['_dims']
+        vd = ['p', 'q', 'r', 's', 't'][:nv] if nv > 1 else None
+        if mp == 'none':
+            mapping = {}
+        elif mp == 'default':
+            mapping = dict(zip(vd, dims))
+        elif mp == 'permuted':
+            mapping = dict(zip(vd, reversed(dims)))
+        elif mp == 'shuffled_dict':
+            # the same pairing as 'permuted', but the dict lists its keys in another order than vdims
+            pairs = list(zip(vd, reversed(dims)))
+            mapping = dict(pairs[1:] + pairs[:1])
+        elif mp == 'extra_component':
+            # more components than axes: the last component is mapped to no axis, listed first in the dict
+            mapping = dict([(vd[-1], None)] + list(zip(vd[:-1], reversed(dims))))
+        else:
+            # component for the second rotation axis is not mapped
+            mapping = {v: (x if x != dims[cfg['ax2']] else None) for v, x in zip(vd, dims)}
+        from .fieldc import sym_field
+        f, assume = sym_field(E, d, nv, mesh=m, assume=assume, unit='T', vdims=vd, mapping=mapping)
+        return f, assume
+
+    def pre_state(s, E, cfg):
+        f, assume = s.make_field(E, cfg)
+        d = cfg['ndim']
+        dims = f.attrs['_mesh'].attrs['_region'].attrs['_dims']
+        k = inp(E, 'k', 'int')
+        ref = None if (cfg['ax1'] + cfg['ax2']) % 2 else tuple(inp(E, f'R{j}', 'float') for j in range(d))
+        st = s.bind(E, f, [dims[cfg['ax1']], dims[cfg['ax2']]], {'k': k, 'reference_point': ref, 'inplace': cfg['inplace']})
+        st.assume = assume
+        return st
+
+    def bind(s, E, selfobj, args, kw):
+        st = State(selfobj, args, kw)
+        a = dict(zip(['ax1', 'ax2', 'k', 'reference_point', 'inplace'], args))
+        a.update(kw)
+        st.inplace, st.k, st.ax1, st.ax2 = a.get('inplace', False), a.get('k', 1), a['ax1'], a['ax2']
+        st.mst = MeshRotate90().bind(E, selfobj.attrs['_mesh'], [a['ax1'], a['ax2']], {'k': st.k, 'reference_point': a.get('reference_point'), 'inplace': st.inplace})
+        return st
+
+    def components(s, st):
+        """positions (in vdims) of the components mapped to ax1 and ax2, or None when one is missing"""
+        f = st.self
+        if f.attrs['_nvdim'] == 1:
+            return 'scalar'
+        rev = {ax: v for v, ax in f.attrs['_vdim_mapping'].items()}
+        v1, v2 = rev.get(st.ax1), rev.get(st.ax2)
+        if v1 is None or v2 is None:
+            return None
+        return f.attrs['_vdims'].index(v1), f.attrs['_vdims'].index(v2)
+
+    def frame(s, E, st):
+        return [('self', st.self)] if not st.inplace else []
+
+    def frame_on_raise(s, E, st):
+        return [('self (a refused rotation leaves the field, its mesh and its validity unmodified)', st.self)]
+
+    def raises(s, E, st):
+        out = list(MeshRotate90().raises(E, st.mst))
+        if s.components(st) is None:
+            out.append(('RuntimeError', True))
+        return out
+
+    def post(s, E, st, result):
+        from .fieldc import inv_field, same_meta, owns_buffers
+        from pyvc.ndarr import NDArr
+        f = st.self
+        old = st.old['self'][2]
+        out = []
+        if st.inplace:
+            out.append(('in-place form returns the object itself', result is f))
+        else:
+            out.append(('copying form returns a new Field', isinstance(result, Obj) and result.cls == 'Field' and result is not f))
+        if not isinstance(result, Obj) or result.cls != 'Field':
+            return out
+        out += [('Inv: ' + l, c) for l, c in inv_field(E, result)]
+        # ---- the mesh: exactly what the contract of Mesh.rotate90 says (same clause text, old mesh = snapshot)
+        mc = MeshRotate90()
+        mst = st.mst
+        mst.old = {'self': old['_mesh']}
+        msave = mst.self
+        rm = result.attrs['_mesh']
+        for l, c in mc.post(E, mst, rm):
+            if l.startswith('copying form') or l.startswith('in-place form') or 'does not share its region' in l:
+                continue
+            out.append(('mesh: ' + l, c))
+        if st.inplace:
+            out.append(('in place: the field keeps its mesh object', rm is f.attrs['_mesh'] and rm is old['_mesh'][1]))
+        else:
+            out.append(('copy: the result has its own mesh object', rm is not old['_mesh'][1]))
+        nv = old['_nvdim'][1]
+        out.append(('number of components kept', result.attrs['_nvdim'] == nv))
+        out.append(('component labels kept', _eq_(E, result.attrs.get('_vdims'), [x[1] for x in old['_vdims'][2]] if old['_vdims'][0] == 'list' else old['_vdims'][1])))
+        out.append(('component-to-axis mapping kept', result.attrs.get('_vdim_mapping') == {k_: v[1] for k_, v in old['_vdim_mapping'][2].items()}))
+        out.append(('unit kept', result.attrs.get('_unit') == old['_unit'][1]))
+        arr, val = result.attrs.get('_array'), result.attrs.get('_valid')
+        if not isinstance(arr, NDArr) or not isinstance(val, NDArr):
+            return out + [('array and valid are arrays', False)]
+        # ---- old contents
+        _, oarr, obuf, oget, oaxes, ofixed = old['_array']
+        _, ovarr, ovbuf, ovget, ovaxes, ovfixed = old['_valid']
+        OA = lambda idx: oget(NDArr(obuf, oaxes, ofixed).base_index(E, idx))
+        OV = lambda idx: ovget(NDArr(ovbuf, ovaxes, ovfixed).base_index(E, idx))
+        if not st.inplace:
+            out.append(("the result's values and validity are its own (no buffer shared with the operand)",
+                        arr.buf.id not in (obuf.id, ovbuf.id) and val.buf.id not in (obuf.id, ovbuf.id) and arr.buf.id != val.buf.id))
+        dims = old['_mesh'][2]['_region'][2]['_dims'][1]
+        i1, i2 = dims.index(st.ax1), dims.index(st.ax2)
+        on = [E.pyscalar(x) for x in old['_mesh'][2]['_n'][2]]
+        rn = [E.pyscalar(x) for x in rm.attrs['_n'].elems]
+        ridx = E.skolem(rn, 'j')
+        km = I(st.k) % 4
+        # inverse of the data movement of np.rot90 (see Lemmas): the cell now at idx' came from src
+        ip, jp = I(ridx[i1]), I(ridx[i2])
+        n1, n2 = I(on[i1]), I(on[i2])
+        si = z3.If(km == 0, ip, z3.If(km == 1, jp, z3.If(km == 2, n1 - 1 - ip, n1 - 1 - jp)))
+        sj = z3.If(km == 0, jp, z3.If(km == 1, n2 - 1 - ip, z3.If(km == 2, n2 - 1 - jp, ip)))
+        src = list(ridx)
+        src[i1], src[i2] = Sym(z3.simplify(si), 'int'), Sym(z3.simplify(sj), 'int')
+        out.append(('the source cell of every result cell exists (index map is onto the old mesh)',
+                    z3.And(si >= 0, si < n1, sj >= 0, sj < n2)))
+        out.append(('valid[idx\'] == old valid[source cell] (validity moves with the cells)', B(val.at(E, list(ridx))) == B(OV(list(src)))))
+        comps = s.components(st)
+        for c in range(nv):
+            new = R(arr.at(E, list(ridx) + [c]))
+            if comps != 'scalar' and c in comps:
+                a1, a2 = R(OA(list(src) + [comps[0]])), R(OA(list(src) + [comps[1]]))
+                rx, ry = rot_sym(km, a1, a2)
+                want = rx if c == comps[0] else ry
+                out.append((f'component {c} (mapped to a rotation axis) == exact quarter-turn matrix applied to the two in-plane components of the source cell', new == want))
+            else:
+                out.append((f'component {c} (scalar / not mapped to a rotation axis) == value of the source cell, unchanged', new == R(OA(list(src) + [c]))))
+        return out
+
+
+def _eq_(E, x, y):
+    from pyvc.states import _eq
+    return _eq(E, x, y)
+
+
+CONTRACTS = [RegionRotate90(), MeshRotate90(), Lemmas(), Identities(), FieldRotate90()]
 _BY_NAME = {c.name: c for c in CONTRACTS}
 _USE = [RegionInit(), MeshInit(), RegionRotate90()]
+from . import c03 as _c03
+from .fieldc import FieldInit as _FieldInit
+setup_engine = _c03.setup_engine
+_USE.append(_FieldInit())
 
 
 def contract(name):
@@ -150,8 +320,17 @@ INLINED = ['Region.pmin/pmax/centre/units/dims', 'Region._dim2index', 'Mesh.n/re
 TRUSTED = ['contracts of Region.__init__ / Mesh.__init__ / Mesh.index2point (discharged under C01)',
            '[A] np.rot90(a, k, axes): element (i,j) lands at (n2-1-j, i) for k=1, (n1-1-i, n2-1-j) for k=2, (j, n1-1-i) for k=3 (conformance-tested in the bounded tier)',
            '[A-trig] cos/sin of k*pi/2 are the exact quarter-turn table on k mod 4']
-ASSUMPTIONS = ['field-level clauses (values, vector components, validity) are decided by the bounded tier only; the deductive tier covers region, mesh and the index/geometry lemma']
+ASSUMPTIONS = ['field values are real numbers; the geometric reading g(R+Q(p-R)) = Q f(p) is the composition of the Field.rotate90 contract (index form) with the index/geometry lemma',
+               'Field.rotate90 pre-states: meshes without subregions (with subregions: Mesh.rotate90 contract in place + bounded tier)']
 MUTANTS = {
+    'field_component_index_from_mapping_order': {'module': 'field', 'contract': 'Field.rotate90', 'config': {'ndim': 3, 'nvdim': 3, 'ax1': 0, 'ax2': 1, 'inplace': False, 'mapping': 'shuffled_dict'},
+                                                 'old': 'vdim1 = self.vdims.index(self._r_dim_mapping[ax1])', 'new': 'vdim1 = list(self.vdim_mapping.values()).index(ax1)'},
+    'field_vector_rotation_sign': {'module': 'field', 'contract': 'Field.rotate90', 'config': {'ndim': 2, 'nvdim': 2, 'ax1': 0, 'ax2': 1, 'inplace': True, 'mapping': 'default'},
+                                   'old': 'value[..., vdim1] = np.cos(theta) * value1 - np.sin(theta) * value2', 'new': 'value[..., vdim1] = np.cos(theta) * value1 + np.sin(theta) * value2'},
+    'field_validity_axes_swapped': {'module': 'field', 'contract': 'Field.rotate90', 'config': {'ndim': 2, 'nvdim': 1, 'ax1': 0, 'ax2': 1, 'inplace': False, 'mapping': 'none'},
+                                    'old': 'valid = np.rot90(self.valid.copy(), k=k, axes=(idx1, idx2))', 'new': 'valid = np.rot90(self.valid.copy(), k=k, axes=(idx2, idx1))'},
+    'field_refusal_after_mesh_rotation': {'module': 'field', 'contract': 'Field.rotate90', 'config': {'ndim': 2, 'nvdim': 2, 'ax1': 0, 'ax2': 1, 'inplace': True, 'mapping': 'missing'},
+                                          'old': '        vdim1 = vdim2 = None\n        if self.nvdim > 1:', 'new': '        vdim1 = vdim2 = None\n        self.mesh.rotate90(ax1=ax1, ax2=ax2, k=k, reference_point=reference_point, inplace=inplace)\n        if self.nvdim > 1:'},
     'mesh_n_not_swapped': {'module': 'mesh', 'contract': 'Mesh.rotate90', 'config': {'ndim': 2, 'inplace': False, 'ax1': 0, 'ax2': 1, 'nsub': 0},
                            'old': 'n[idx1], n[idx2] = n[idx2], n[idx1]', 'new': 'n[idx1], n[idx2] = n[idx1], n[idx2]'},
     'region_rot_about_origin': {'module': 'region', 'contract': 'Region.rotate90', 'config': {'ndim': 2, 'inplace': False, 'ax1': 0, 'ax2': 1, 'ref': 'point'},
